@@ -122,6 +122,10 @@ SIBLINGS = [
     ("model M type Voltage = Real(unit = \"V\"); model F input Voltage v; output Voltage y; Real s; equation der(s) = v; y = s; end F; "
      "F f1; input Voltage u; output Voltage z; equation f1.v = u; z = f1.y; end M;",
      {"states": ["f1.s"], "alg_states": ["f1.v", "f1.y", "z"], "inputs": ["u"]}, ["der(f1.s)"]),
+    # a called function with a local constant named like a state of the model
+    ("function g input Real u; output Real r; protected constant Real c = 0.5; algorithm r := c * u; end g; "
+     "model M Real c; Real y; equation der(c) = -c; y = g(c); end M;",
+     {"states": ["c"], "alg_states": ["y"], "inputs": []}, ["der(c)"]),
 ]
 
 
